@@ -1893,7 +1893,7 @@ func (c *Client) doSetup(
 	case ProtocolUDP, ProtocolUDPMulticast:
 		if thRes.Protocol == headers.TransportProtocolTCP {
 			// switch transport automatically
-			if c.setuppedTransport == nil && c.Protocol == nil {
+			if c.setuppedTransport == nil && c.Protocol == nil && c.lastDescribeURL != nil {
 				c.OnTransportSwitch(liberrors.ErrClientSwitchToTCPDueToServer{})
 
 				c.baseURL = baseURL
